@@ -51,14 +51,17 @@ ASSUMPTIONS = [
 ]
 EXPECTED_PROBES = {
     'C11': ['cross_probe_tie', 'k>=3', 'tsv_in_some', 'curated_probe', 'id_gap', 'unsigned_ids',
-            'k=1'],
+            'k=1', 'same_merger_run_twice', 'tsv_value_zero'],
     'C12': ['k>=3', 'unequal_channels', 'matrix_in_all', 'matrix_in_some', 'unsigned_index_table',
-            'highest_template_unused', 'single_column_probe', 'probe_not_starting_at_x0'],
+            'highest_template_unused', 'single_column_probe', 'probe_not_starting_at_x0',
+            'same_merger_run_twice'],
     'C13': ['label', 'raw', 'curated', 'convert_into_source', 'convert_into_source:symlink',
             'convert_into_source:dotdot', 'temp_wh', 'preexisting_store',
-            'no_features', 'multi_probe_table', 'highest_template_unused'],
+            'no_features', 'multi_probe_table', 'highest_template_unused',
+            'second_export_from_same_session', 're_export_into_same_directory'],
     'C14': ['pipeline', 'pipeline_k>=3', 'features', 'no_features', 'empty_cluster_id',
-            'few_channels_on_probe', 'factor'],
+            'few_channels_on_probe', 'factor', 'second_export_from_same_session',
+            're_export_into_same_directory'],
 }
 
 TSV_NAMES = ['cluster_Amplitude.tsv', 'cluster_ContamPct.tsv', 'cluster_KSLabel.tsv']
@@ -132,6 +135,8 @@ def gen(rng, prop, tier):
                 if len(c['unused_templates']) >= c['nt'] - 1:
                     c['unused_templates'] = []
         ops = [{'op': 'merge'}]
+        if rng.random() < 0.2:
+            ops.append({'op': 'merge_again'})   # the same Merger instance run a second time
         if prop == 'C14':
             cfg['knobs']['n_closest_channels'] = rng.choice([2, 4, 12])
             ops.append({'op': 'convert', 'label': rng.choice(['', 'probe00']),
@@ -162,8 +167,20 @@ def gen(rng, prop, tier):
     if rng.random() < 0.3:
         ops.append({'op': 'convert_into_source',
                     'alias': rng.choice(['same', 'str', 'symlink', 'dotdot', 'trailing'])})
-    ops.append({'op': 'convert', 'label': rng.choice(['', '', 'probe00', 'x1']),
+    ops.append({'op': 'convert', 'label': rng.choice(['', '', 'probe00', 'x1', 'clusters', 'amps',
+                                                       'times', 'templates', 'uuids', 'npy']),
                 'ampfactor': rng.choice([1, 1, 2.34e-6, 2.5, 0.5]), 'force': rng.random() < 0.3})
+    r = rng.random()
+    if r < 0.15:
+        # a second export from the same loaded model into another directory
+        ops.append({'op': 'convert', 'out': 'alf2', 'label': rng.choice(['', 'probe01', 'b']),
+                    'ampfactor': rng.choice([1, 2.5]), 'force': False})
+    elif r < 0.3:
+        # export, re-curate, export again into the same directory (force=True overwrites)
+        ops[-1]['label'] = ''
+        ops.append({'op': 'recurate', 'ops': world.gen_curation_ops(rng, rng.randint(1, 2))})
+        ops.append({'op': 'convert', 'label': '', 'ampfactor': ops[-2]['ampfactor'],
+                    'force': True})
     return {'engine': NAME, 'cfg': cfg, 'ops': ops}
 
 
@@ -319,8 +336,8 @@ class Probe(object):
                 if field == 'KSLabel':
                     vals[int(c)] = ['good', 'mua'][int(rs.randint(0, 2))]
                 elif field == 'ContamPct':
-                    vals[int(c)] = [int(rs.randint(0, 100)), float(np.round(rs.rand() * 100, 1))][
-                        int(rs.randint(0, 2))]
+                    vals[int(c)] = [int(rs.randint(0, 100)), float(np.round(rs.rand() * 100, 1)),
+                                    0.0, 0][int(rs.randint(0, 4))]
                 else:
                     vals[int(c)] = float(np.round(rs.rand() * 50, 2))
             if not vals:
@@ -423,6 +440,8 @@ def check_merge(ctx, probes, out, model):
                 o = next(iter(offs['c'][p.index]))
                 for c, v in p.tsv[name][1].items():
                     exp[c + o] = v
+                    if v == 0 and not isinstance(v, str):
+                        ctx.probe('tsv_value_zero')
             same = set(got) == set(exp) and all(
                 type(got[c]) is type(exp[c]) and got[c] == exp[c] for c in exp)
             ctx.check(same and field == have[0].tsv[name][0], 'merged-tsv-content',
@@ -572,7 +591,8 @@ def _find(out, base, label):
     return out / name
 
 
-def check_export_structure(ctx, model, src_dir, out, op, before_src, n_probes, out_model):
+def check_export_structure(ctx, model, src_dir, out, op, before_src, n_probes, out_model,
+                           memo=None):
     """C13."""
     label = op['label']
     ns, nt, nc = model.n_spikes, model.n_templates, model.n_channels
@@ -627,15 +647,19 @@ def check_export_structure(ctx, model, src_dir, out, op, before_src, n_probes, o
     # label
     if label:
         ctx.probe('label')
+    foreign_ok = {'params.py', 'cluster_KSLabel.tsv', '_kilosort_whitening.matrix.npy',
+                  '_phy_spikes_subset.channels.npy', '_phy_spikes_subset.spikes.npy',
+                  '_phy_spikes_subset.waveforms.npy', 'drift_depths.um.npy', 'drift.times.npy',
+                  'drift.um.npy', 'whitening_mat_inv.npy'}
     for f in files:
-        is_obj = f.startswith(LABEL_PREFIXES)
         parts = f.split('.')
-        has = label and len(parts) >= 3 and parts[-2] == label
-        if is_obj:
-            ctx.check(bool(has) == bool(label), 'label-not-inserted-before-extension',
+        if f.startswith(LABEL_PREFIXES):
+            # ALF object files are obj.attr.ext; with a label obj.attr.label.ext
+            good = (len(parts) == 4 and parts[2] == label) if label else len(parts) == 3
+            ctx.check(good, 'label-not-inserted-before-extension',
                       lambda: {'file': f, 'label': label})
         else:
-            ctx.check(not has or not label, 'label-inserted-in-foreign-file', lambda: {'file': f})
+            ctx.check(f in foreign_ok, 'label-inserted-in-foreign-file', lambda: {'file': f})
     # source directory effects
     after_src = world.snapshot(src_dir)
     created, deleted, modified = world.diff_snapshots(before_src, after_src)
@@ -666,6 +690,16 @@ def check_export_structure(ctx, model, src_dir, out, op, before_src, n_probes, o
                       'reloaded-output-channel-map',
                       lambda: {'got': _desc(out_model.channel_mapping),
                                'expected': _desc(model.channel_mapping)})
+        if memo is not None:
+            # every export of one source must load back to the same channel map (whatever the
+            # per-probe re-expression of C14 is): an export must not depend on earlier exports
+            cm = np.asarray(out_model.channel_mapping).astype(np.int64)
+            if 'channel_map' in memo:
+                ctx.check(_aeq(cm, memo['channel_map']),
+                          'reloaded-output-channel-map-differs-between-exports',
+                          lambda: {'first': memo['channel_map'].tolist(), 'now': cm.tolist()})
+            else:
+                memo['channel_map'] = cm
     else:
         ctx.fail('convert-returned-no-model')
 
@@ -850,8 +884,12 @@ def run_ops(plan, ctx, cfg):
     ctx.on_cleanup(closeall)
 
     model = None
+    merger = None
     src_dir = None
     orig_maps = None
+    out_models = {}
+    n_converts = 0
+    export_memo = {}
     n_probes = 1
     probes = None
     if 'probes' in cfg:
@@ -899,17 +937,25 @@ def run_ops(plan, ctx, cfg):
 
     for step, op in enumerate(plan['ops']):
         k = op['op']
-        if k == 'merge':
+        if k in ('merge', 'merge_again'):
             if probes is None:
+                continue
+            if k == 'merge_again' and merger is None:
                 continue
             before = [world.snapshot(p.dir) for p in probes]
             out = root / 'merged'
-            merger = ctx.real('Merger', Merger, [p.dir for p in probes], out,
-                              owners=('C11', 'C12'))
+            if k == 'merge':
+                merger = ctx.real('Merger', Merger, [p.dir for p in probes], out,
+                                  owners=('C11', 'C12'))
+            else:
+                # history: the same Merger object is asked to merge a second time
+                if model is not None:
+                    model.close()
+                ctx.probe('same_merger_run_twice')
             model = ctx.real('merge', merger.merge, owners=('C11', 'C12'))
             models.append(model)
-            ctx.op('merge')
-            ctx.ev(step, 'merge', sorted(world.snapshot(out).items()))
+            ctx.op(k)
+            ctx.ev(step, k, sorted(world.snapshot(out).items()))
             if prop == 'C11':
                 for p, b in zip(probes, before):
                     cr, de, mo = world.diff_snapshots(b, world.snapshot(p.dir))
@@ -928,7 +974,7 @@ def run_ops(plan, ctx, cfg):
             ctx.state(len(probes), len(set(p.cfg['nc'] for p in probes)) == 1,
                       tuple(sorted(n for p in probes for n, v in p.cfg['tsv'].items() if v))[:3],
                       tuple(p.cfg['dtypes']['find'][0] for p in probes),
-                      any(p.cfg.get('curation') for p in probes))
+                      any(p.cfg.get('curation') for p in probes), k)
             if prop == 'C14':
                 ctx.probe('pipeline')
                 if len(probes) >= 3:
@@ -983,11 +1029,19 @@ def run_ops(plan, ctx, cfg):
             if model is None:
                 continue
             before = world.snapshot(src_dir)
-            out = root / 'alf'
+            out = root / op.get('out', 'alf')
+            if out.name in out_models and out_models[out.name] is not None:
+                out_models[out.name].close()   # the earlier output model maps files rewritten now
+            n_converts += 1
+            if n_converts >= 2:
+                ctx.probe('second_export_from_same_session')
+                if out.exists():
+                    ctx.probe('re_export_into_same_directory')
             creator = ctx.real('EphysAlfCreator', EphysAlfCreator, model, owners=('C13', 'C14'))
             out_model = ctx.real('convert', creator.convert, out, force=op['force'],
                                  label=op['label'], ampfactor=op['ampfactor'],
                                  owners=('C13', 'C14'))
+            out_models[out.name] = out_model
             if out_model is not None:
                 models.append(out_model)
             ctx.op('convert')
@@ -999,12 +1053,25 @@ def run_ops(plan, ctx, cfg):
             if model.sparse_features is None:
                 ctx.probe('no_features')
             if prop == 'C13':
-                check_export_structure(ctx, model, src_dir, out, op, before, n_probes, out_model)
+                check_export_structure(ctx, model, src_dir, out, op, before, n_probes, out_model,
+                                       memo=export_memo)
             elif prop == 'C14':
                 check_export_values(ctx, model, out, op, orig_maps)
             ctx.state(n_probes, bool(op['label']), model.traces is not None,
                       model.sparse_features is not None,
                       not np.array_equal(model.spike_clusters, model.spike_templates),
                       op['ampfactor'] != 1)
+        elif k == 'recurate':
+            if model is None or probes is not None:
+                continue
+            sc = world.apply_curation(np.asarray(model.spike_clusters), np.asarray(
+                model.spike_templates), op['ops'])
+            ctx.real('save_spike_clusters', model.save_spike_clusters, sc.astype(np.int32),
+                     owners=('C08', 'C10'))
+            model.close()
+            model = ctx.real('load', load_model, src_dir / 'params.py', owners=('C04',))
+            models.append(model)
+            ctx.op('recurate')
+            ctx.ev(step, 'recurate', sc)
         else:
             raise ValueError(k)
